@@ -190,3 +190,97 @@ Section Dyn.
     eqA (hv_other old) (hv_other new) && String.eqb (hv_file old) (hv_file new)
     && (if cert_cmd_sent old new then cmd_ok else true).
 End Dyn.
+
+(* ---------- (6) the crt-list from ANY hosts model ---------- *)
+(* The crt-list part of WriteFrontendMaps over the hosts of the haproxy model whatever
+   filled them in (ingress converter with annotations, Gateway API converter): one record
+   per hatypes.Host with the fields that part of the code reads.  Files are named by the
+   label of their content ("" = no file). *)
+Record hcfg := {
+  hc_name : string;         (* Hostname *)
+  hc_crt : string;          (* TLS.TLSFilename *)
+  hc_hastls : bool;         (* HasTLS(): TLS.UseDefaultCrt || TLS.TLSHash != "" *)
+  hc_pass : bool;           (* SSLPassthrough() *)
+  hc_alpn : string;         (* TLS.ALPN *)
+  hc_ca : string;           (* TLS.CAFilename *)
+  hc_crl : string;          (* TLS.CRLFilename *)
+  hc_ciphers : string;      (* TLS.Ciphers *)
+  hc_suites : string;       (* TLS.CipherSuites *)
+  hc_options : string       (* TLS.Options *)
+}.
+
+(* one line: certificate, the words between [ ], sni filter *)
+Record gline := { gl_crt : string; gl_opts : list string; gl_filter : string }.
+
+Definition nonempty (s : string) : bool := negb (String.eqb s "").
+
+(* hasCustomTLS; d = frontend.DefaultCrtFile *)
+Definition hc_custom (d : string) (h : hcfg) : bool :=
+  (nonempty (hc_crt h) && negb (String.eqb (hc_crt h) d))
+  || nonempty (hc_alpn h) || nonempty (hc_ca h) || nonempty (hc_ciphers h)
+  || nonempty (hc_suites h) || nonempty (hc_options h).
+
+(* bindConf *)
+Definition hc_bind (h : hcfg) : list string :=
+  (if nonempty (hc_alpn h) then ["alpn"; hc_alpn h] else [])
+  ++ (if nonempty (hc_ca h)
+      then ["ca-file"; hc_ca h; "verify"; "optional"]
+           ++ (if nonempty (hc_crl h) then ["crl-file"; hc_crl h] else [])
+      else [])
+  ++ (if nonempty (hc_ciphers h) then ["ciphers"; hc_ciphers h] else [])
+  ++ (if nonempty (hc_suites h) then ["ciphersuites"; hc_suites h] else [])
+  ++ (if nonempty (hc_options h) then [hc_options h] else []).
+
+(* hosts.FindHost *)
+Definition find_hcfg (name : string) (l : list hcfg) : option hcfg :=
+  find (fun h => String.eqb (hc_name h) name) l.
+
+(* wildcardHasCustomTLS *)
+Definition gen_wild_custom (d : string) (l : list hcfg) (h : hcfg) : bool :=
+  match wild_of (hc_name h) with
+  | None => false
+  | Some wn =>
+      match find_hcfg wn l with
+      | None => false
+      | Some wh => negb (String.eqb (hc_name wh) (hc_name h)) && negb (hc_pass wh) && hc_custom d wh
+      end
+  end.
+
+Definition gen_crtfile (d : string) (h : hcfg) : string :=
+  if nonempty (hc_crt h) then hc_crt h else d.
+
+(* the line of one host of the loop over BuildSortedItems, None = no line *)
+Definition gen_line (d : string) (l : list hcfg) (h : hcfg) : option gline :=
+  if hc_pass h then None                      (* `continue` of ssl-passthrough hosts *)
+  else if hc_custom d h
+       then Some {| gl_crt := gen_crtfile d h; gl_opts := hc_bind h; gl_filter := hc_name h |}
+       else if hc_hastls h && gen_wild_custom d l h
+            then Some {| gl_crt := gen_crtfile d h; gl_opts := []; gl_filter := hc_name h |}
+            else None.
+
+Fixpoint insert_hcfg (x : hcfg) (l : list hcfg) : list hcfg :=
+  match l with
+  | [] => [x]
+  | y :: r => if str_ltb (hc_name y) (hc_name x) then y :: insert_hcfg x r else x :: l
+  end.
+Definition sort_hcfg (l : list hcfg) : list hcfg := fold_right insert_hcfg [] l.
+
+Definition opt_list_g (o : option gline) : list gline := match o with Some g => [g] | None => [] end.
+
+Definition crt_list_gen (d : string) (l : list hcfg) : list gline :=
+  {| gl_crt := d; gl_opts := []; gl_filter := neg_default |}
+  :: flat_map (fun h => opt_list_g (gen_line d l h))
+              (sort_hcfg (filter (fun h => negb (String.eqb (hc_name h) default_host)) l)).
+
+Definition plain (g : gline) : crtline := {| cl_crt := gl_crt g; cl_filter := gl_filter g |}.
+
+Definition served_gen (d : string) (l : list hcfg) (name : string) : string :=
+  sni_select (map plain (crt_list_gen d l)) name.
+
+(* the hosts of the converter model of Conv.v as host records *)
+Definition hcfg_of (s : cstate) (h : string) : hcfg :=
+  {| hc_name := h;
+     hc_crt := match htls s h with Some c => c | None => "" end;
+     hc_hastls := match htls s h with Some _ => true | None => false end;
+     hc_pass := false; hc_alpn := ""; hc_ca := ""; hc_crl := ""; hc_ciphers := "";
+     hc_suites := ""; hc_options := "" |}.
